@@ -1,7 +1,7 @@
 ---- MODULE MC_Trees ----
 \* C07 / C16 by TREE size: every surface syntax tree up to MaxSize nodes, with up to MaxParens redundantly
 \* parenthesised nodes, unparsed to a sentence; the parser must give back exactly this tree.
-EXTENDS GramUnparse, Json
+EXTENDS GramShow, Json
 CONSTANTS MaxSize, MaxParens, Kinds, BinOps, MaxDrops   \* MaxDrops: nodes whose REQUIRED parentheses are left out (0 = sentences only)
 VARIABLES pre, pending, size, parens, drops
 Init == pre = <<>> /\ pending = 1 /\ size = 0 /\ parens = 0 /\ drops = 0
@@ -41,6 +41,8 @@ ClearNp(t) == LET c == [t EXCEPT !.np = FALSE] IN
     [] t.k = "if" -> [c EXCEPT !.c = ClearNp(t.c), !.a = ClearNp(t.a), !.b = ClearNp(t.b)]
     [] t.k = "let" -> IF t.ann THEN [c EXCEPT !.a = ClearNp(t.a), !.d = ClearNp(t.d), !.b = ClearNp(t.b)] ELSE [c EXCEPT !.d = ClearNp(t.d), !.b = ClearNp(t.b)]
     [] OTHER -> c
+\* C16 (design level): wherever the grammar requires parentheses the printer writes them
+InvShowValid == Done => ShowValid(Build(pre).t)
 \* with a dropped pair of required parentheses the string is emitted WITHOUT a tree (tag NOPAR): whether it is a sentence at
 \* all is decided separately by the derivation machine (MC_Member)
 Emit == Done => LET t == Build(pre).t  u == Unparse(t) IN
